@@ -471,5 +471,47 @@ int main(int argc, char** argv) {
                  for (auto& kv : chunk_log().live) std::free((void*)kv.first);
                  chunk_log() = ChunkLog();
                }});
+#if !VF_SANITIZER
+  // requests of 4 GiB and more (the memory is reserved by overcommit and never touched): size arithmetic must be 64-bit
+  S.push_back({"requests_beyond_4GiB", 24, 200, [](uint64_t i, vf::Rng& r) {
+                 using Pool = MemoryPoolAllocator<RecBase, SimpleChunkPolicy>;
+                 chunk_log() = ChunkLog();
+                 {
+                   RecBase base;
+                   PoolHist<Pool> h(r, "simple-policy(huge)");
+                   h.handles.emplace_back(new Pool(65536, &base));
+                   static const size_t huge[] = {(1ULL << 32), (1ULL << 32) + 64, (1ULL << 32) - 8, (1ULL << 33) + 24, (3ULL << 31) + 8};
+                   size_t n = huge[i % 5];
+                   vf::eval();
+                   c_big.add();
+                   void* small1 = h.any().Malloc(40);
+                   if (small1) { Block b{(uintptr_t)small1, 40, 40, ++h.serial}; h.fill(b); h.blocks[b.p] = b; h.consumed += 40; }
+                   h.log("Malloc(" + std::to_string(n) + ")");
+                   void* p = h.any().Malloc(n);
+                   if (p) {  // may legitimately fail when the address space is refused
+                     if (h.check_new_block(p, n, "Malloc-huge")) {
+                       Block b{(uintptr_t)p, n, (n + 7) & ~(size_t)7, ++h.serial};
+                       // touch only both ends
+                       ((unsigned char*)p)[0] = 1;
+                       ((unsigned char*)p)[n - 1] = 2;
+                       h.blocks[b.p] = Block{b.p, 1, b.asize, b.serial};
+                       ((unsigned char*)p)[0] = pat(b.serial, 0);
+                       h.consumed += b.asize;
+                       void* q = h.any().Malloc(24);
+                       if (q && h.check_new_block(q, 24, "Malloc-after-huge")) {
+                         uintptr_t qa = (uintptr_t)q;
+                         if (qa >= b.p && qa < b.p + n) h.fail("blocks-overlap:Malloc-after-huge", "a later block lies inside the huge block");
+                         h.consumed += 24;
+                       }
+                       if (!h.failed) h.check_accounting("huge");
+                     }
+                     vf::count("huge-requests-granted");
+                   } else vf::count("huge-requests-refused");
+                   vf::distinct_enum(1);
+                 }
+                 for (auto& kv : chunk_log().live) std::free((void*)kv.first);
+                 chunk_log() = ChunkLog();
+               }, false});
+#endif
   return vf::run(argc, argv, S);
 }
